@@ -97,7 +97,10 @@ impl<'a> InstanceInformation {
                 simple_dns::rdata::RData::AAAA(aaaa) => {
                     ip_addresses.insert(std::net::Ipv6Addr::from(aaaa.address).into());
                 }
-                simple_dns::rdata::RData::TXT(txt) => attributes.extend(txt.attributes()),
+                simple_dns::rdata::RData::TXT(txt) => attributes.extend(
+                    // an empty TXT record is sent as a single empty string, which is not an attribute
+                    txt.attributes().into_iter().filter(|(key, _)| !key.is_empty()),
+                ),
                 simple_dns::rdata::RData::SRV(srv) => {
                     ports.insert(srv.port);
                 }
